@@ -1,27 +1,30 @@
 #!/usr/bin/env python3
 """Apply each seeded mutation to /repo, run the given checks (quick), undo. usage: mutmatrix.py [mutation-dir ...] [--checks C01,C03]"""
 import json, os, subprocess, sys, time
-V="/verif"
+V=os.path.dirname(os.path.dirname(os.path.abspath(__file__)))
+R=os.environ.get("CVH_REPO","/repo")
 args=[a for a in sys.argv[1:] if not a.startswith("--")]
 checks=None
+tier="quick"
 for a in sys.argv[1:]:
     if a.startswith("--checks="): checks=a.split("=")[1].split(",")
+    if a.startswith("--tier="): tier=a.split("=")[1]
 muts=args or sorted(os.listdir(V+"/seeded"))
 res={}
 for m in muts:
     d=os.path.join(V,"seeded",m)
     meta=json.load(open(d+"/meta.json"))
     prop=meta["property"]
-    assert subprocess.run(["git","-C","/repo","status","--porcelain"],capture_output=True,text=True).stdout.strip()=="", "repo dirty"
-    a=subprocess.run(["git","-C","/repo","apply",d+"/patch.diff"],capture_output=True,text=True)
+    assert subprocess.run(["git","-C",R,"status","--porcelain"],capture_output=True,text=True).stdout.strip()=="", "repo dirty"
+    a=subprocess.run(["git","-C",R,"apply",d+"/patch.diff"],capture_output=True,text=True)
     if a.returncode!=0:
-        a=subprocess.run(["git","-C","/repo","apply","--3way",d+"/patch.diff"],capture_output=True,text=True)
+        a=subprocess.run(["git","-C",R,"apply","--3way",d+"/patch.diff"],capture_output=True,text=True)
         if a.returncode!=0:
-            print(m,"PATCH DOES NOT APPLY",a.stderr[:200]); subprocess.run(["git","-C","/repo","reset","-q","--hard"]); continue
+            print(m,"PATCH DOES NOT APPLY",a.stderr[:200]); subprocess.run(["git","-C",R,"reset","-q","--hard"]); continue
     try:
         for c in (checks or [prop]):
             t0=time.time()
-            r=subprocess.run([V+"/check",c,"--tier","quick"],capture_output=True,text=True,cwd=V)
+            r=subprocess.run([V+"/check",c,"--tier",tier],capture_output=True,text=True,cwd=V)
             viol=[l for l in r.stdout.splitlines() if l.startswith("VIOLATION")]
             sig=set()
             for l in viol:
@@ -30,4 +33,4 @@ for m in muts:
             print("%-10s check %s rc=%d violations=%d %s %.0fs %s"%(m,c,r.returncode,len(viol),sorted(sig),time.time()-t0, (r.stdout.splitlines()[-1][:150] if r.returncode==2 else "")),flush=True)
             res[(m,c)]=r.returncode
     finally:
-        subprocess.run(["git","-C","/repo","reset","-q","--hard"])
+        subprocess.run(["git","-C",R,"reset","-q","--hard"])
